@@ -7,6 +7,7 @@
 #
 # @author Davide Brunato <brunato@sissa.it>
 #
+import codecs
 import json
 from collections.abc import Iterator, Iterable
 from decimal import Decimal, ROUND_UP
@@ -132,6 +133,10 @@ def get_serialization_params(params: Union[None, ElementNode, XPathMap] = None,
             elif key == 'encoding':
                 if not isinstance(value, str):
                     raise xpath_error('XPTY0004', token=token)
+                try:
+                    codecs.lookup(value)
+                except LookupError:
+                    raise xpath_error('SEPM0016', f'unknown encoding {value!r}', token) from None
                 kwargs[key] = value
 
             elif key == 'html-version':
@@ -437,6 +442,5 @@ def serialize_to_json(elements: Iterable[Any],
 
     result = parts[0].replace('/', '\\/')
 
-    if 'encoding' in params:
-        return result.encode('utf-8').decode(params['encoding'])
+    # The result is a string of ASCII characters (the others are escaped): no encoding phase
     return result
